@@ -8,12 +8,13 @@ use serde_json::{Value, json};
 use std::fs;
 use std::path::PathBuf;
 
+/// buildpack ids are case-sensitive: every third one has upper-case letters
 fn bp_id(n: u64) -> String {
-    format!("verif/b{n}")
+    if n % 3 == 1 { format!("Verif/B{n}") } else { format!("verif/b{n}") }
 }
 
 fn id_num(id: &BuildpackId) -> u64 {
-    id.as_str().trim_start_matches("verif/b").parse().expect("numeric id")
+    id.as_str().to_lowercase().trim_start_matches("verif/b").parse().expect("numeric id")
 }
 
 pub fn run(case: &Value) -> Value {
